@@ -341,10 +341,16 @@ def build_vmdk_text(p):
         q = dict(p)
         q['desc_lines'] = head + padl + tl
         text = descriptor_text(q)
+    desc_end = len(text)
+    trailer = p.get('trailer')
+    if trailer:
+        # the descriptor is followed by more data (kind, length)
+        text = text + fill(trailer[0], trailer[1])
     return text, {'fmt': 'vmdk', 'declared': None,
-                  'boundaries': [b for b in (4, 64, 512, 4096, len(text))
-                                 if 0 < b <= len(text)],
-                  'structured': [(0, len(text))], 'text': True}
+                  'boundaries': sorted(set(
+                      b for b in (4, 64, 512, 4096, desc_end, len(text))
+                      if 0 < b <= len(text))),
+                  'structured': [(0, desc_end)], 'text': True}
 
 
 # ---------------------------------------------------------------- vdi
@@ -511,6 +517,19 @@ def build_overlay(p):
         _put(body, off, sig)
         b += [off, off + len(sig)]
         structured.append((off, off + len(sig)))
+    # signatures near the END of the stream (where a fixed-size VHD keeps its
+    # only footer and a stream-optimised VMDK its footer header, plus decoys)
+    tail_placed = []
+    for name, back in p.get('tail') or []:
+        off = total - back
+        _o, sig = SIGNATURES[name]
+        if name == 'vmdk':
+            sig = bytes(sparse_header({'desc_num': 0}))[:64]
+        if off < 1024 or (off < 34 * KI and off + len(sig) > 32 * KI):
+            continue
+        _put(body, off, sig)
+        b += [off, off + len(sig)]
+        tail_placed.append(name)
     if p.get('fat'):
         _put(body, 0x10, b'\x02')
         _put(body, 0x15, b'\xf8')
@@ -521,14 +540,74 @@ def build_overlay(p):
     return bytes(body), {'fmt': 'overlay', 'declared': None,
                          'boundaries': sorted(set(x for x in b
                                                   if 0 < x <= total)),
-                         'structured': structured}
+                         'structured': structured,
+                         'tail_sigs': tail_placed}
+
+
+# ---------------------------------------------------------------- tiled
+
+def _iso_vd(dtype, ident):
+    vd = bytearray(2048)
+    vd[0] = dtype
+    vd[1:6] = ident.encode('latin-1')[:5].ljust(5, b' ')
+    vd[6] = 1
+    return bytes(vd)
+
+
+def tile_unit(name):
+    """One structural unit of some format, to be repeated over a stream."""
+    if name.startswith('iso:'):
+        _x, dtype, ident = name.split(':')
+        return _iso_vd(int(dtype), ident)
+    if name == 'regi':
+        u = bytearray(64)
+        struct.pack_into('<4sII', u, 0, b'regi', 0, 2047)
+        return bytes(u)
+    if name == 'metadata':
+        u = bytearray(64)
+        struct.pack_into('<8sHH', u, 0, b'metadata', 0, 2047)
+        return bytes(u)
+    if name == 'kdmv_footer':
+        return bytes(sparse_header({'desc_num': 2048}, 0xffffffffffffffff))
+    if name == 'kdmv':
+        return bytes(sparse_header({'desc_num': 2048}))
+    if name == 'mbr':
+        u = bytearray(512)
+        u[446:462] = bytes([0x80, 0, 2, 0, 0xEE, 255, 255, 255]) + \
+            struct.pack('<II', 1, 0xffffffff)
+        u[510:512] = b'\x55\xaa'
+        return bytes(u)
+    if name == 'desc_line':
+        return b'RW 2048 SPARSE "disk.vmdk"\n'
+    off, sig = SIGNATURES[name]
+    return sig.ljust(64, b'\x00')
+
+
+def build_tiled(p):
+    """A hostile stream made of one structural unit repeated to the end
+    (p: unit, period, start, total, fill, lead: leading signatures as in the
+    overlay layout)."""
+    total = max(_pget(p, 'total', 1 << 20), 0)
+    body, info = build_overlay({'sigs': p.get('lead') or [], 'total': total,
+                                'fill': _pget(p, 'fill', 'zero')})
+    body = bytearray(body)
+    unit = tile_unit(_pget(p, 'unit', 'iso:0:BEA01'))
+    period = max(_pget(p, 'period', len(unit)), 1)
+    pos = _pget(p, 'start', 0)
+    while pos < total:
+        _put(body, pos, unit)
+        pos += max(period, 1)
+    del body[total:]
+    info = dict(info)
+    info['fmt'] = 'tiled'
+    return bytes(body), info
 
 
 BUILDERS = {
     'qcow2': build_qcow2, 'qed': build_qed, 'vhd': build_vhd,
     'vhdx': build_vhdx, 'vmdk': build_vmdk, 'vmdk_text': build_vmdk_text,
     'vdi': build_vdi, 'iso': build_iso, 'gpt': build_gpt, 'luks': build_luks,
-    'raw': build_raw, 'overlay': build_overlay,
+    'raw': build_raw, 'overlay': build_overlay, 'tiled': build_tiled,
 }
 
 
